@@ -291,3 +291,20 @@ fn(WS + ".app_send", params={"message": "none | msg(headers:short)"}, task="app"
 
 for _m in ("_accept", "_send_rejection", "_send_error_response", "_send_wsproto_event"):
     fn(WS + "." + _m, params={}, inline=True, task="app", props=("C11",))
+
+# inlined at its call sites (plain assignments), and a unit of its own: the constructor establishes
+# the class invariants (no application, nothing sent, nothing recorded, an empty receive buffer with
+# the configured limit) -- the base case of every invariant of WSStream
+fn(WS + ".__init__", inline=True,
+   params={"app": "opaque", "config": "obj hypercorn.config:Config", "context": "obj hypercorn.typing:WorkerContext", "task_group": "obj hypercorn.typing:TaskGroup",
+           "ssl": "bool", "client": "opaque", "server": "opaque", "send": "opaque", "stream_id": "int"},
+   ensures=[
+       ("C01.ws.scheme", "self.scheme == ('wss' if ssl else 'ws')", "C01,C11"),
+       ("WSStream.init.fresh", "not self.closed and self.state == ASGIWebsocketState.HANDSHAKE and self.stream_id == stream_id and self.app_put is None "
+        "and not has(self, 'scope') and not has(self, 'response') and not has(self, 'connection') and not has(self, 'handshake')", "C11,C03"),
+       # C10: the receive buffer starts empty and carries the configured message-size limit
+       ("C10.init.buffer-limit", "self.buffer.value is None and self.buffer.length == 0 and self.buffer.max_length == config.websocket_max_message_size", "C10"),
+       ("WSStream.init.addresses", "same(self.client, client) and same(self.server, server)", "C11"),
+       ("WSStream.init.wiring", "same(self.app, app) and same(self.config, config) and same(self.context, context) and same(self.task_group, task_group)", "C11"),
+   ],
+   props=("C11", "C10", "C03"))
